@@ -130,9 +130,11 @@ def apply_valid(archive, spec, op):
 # ---------------------------------------------------------------------------------------------
 # the malformation catalogue
 BAD_VALUES = [float("nan"), float("inf"), float("-inf")]
-ADD_KINDS = ["sol_rank", "sol_dim", "sol_len", "obj_rank", "obj_len", "obj_nonfinite", "obj_none", "mea_rank", "mea_dim", "mea_len",
-             "mea_nonfinite", "extra_missing", "extra_unknown", "extra_shape", "extra_len", "extra_rank", "extra_type", "all_missing_objective"]
-SINGLE_KINDS = ["sol_shape", "sol_rank", "obj_nonfinite", "obj_none", "mea_shape", "mea_rank", "mea_nonfinite", "extra_missing", "extra_unknown",
+OVERFLOW_VALUES = [1e39, -1e39, 3.5e38, -3.5e38, 1e300]      # finite as float64, not finite in a float32 archive
+ADD_KINDS = ["sol_rank", "sol_dim", "sol_len", "obj_rank", "obj_len", "obj_nonfinite", "obj_overflow", "obj_none", "mea_rank", "mea_dim", "mea_len",
+             "mea_nonfinite", "mea_overflow", "extra_missing", "extra_unknown", "extra_shape", "extra_len", "extra_rank", "extra_type", "all_missing_objective"]
+SINGLE_KINDS = ["sol_shape", "sol_rank", "obj_nonfinite", "obj_overflow", "obj_none", "mea_shape", "mea_rank", "mea_nonfinite", "mea_overflow", "extra_missing",
+                "extra_unknown",
                 "extra_shape", "extra_type"]
 QUERY_KINDS = ["rank", "dim", "nonfinite"]
 
@@ -152,6 +154,14 @@ def gen_bad(rng, spec, nid):
         ex = spec["extras"]
         if kind.startswith("extra") and not ex and kind != "extra_unknown":
             kind = "extra_unknown"
+        if kind.endswith("_overflow") and dtype != np.float32:
+            kind = kind.replace("_overflow", "_nonfinite")
+        if kind == "obj_overflow":
+            kw["objective"] = kw["objective"].astype(np.float64)
+            kw["objective"][pos] = rng.choice(OVERFLOW_VALUES)
+        elif kind == "mea_overflow":
+            kw["measures"] = kw["measures"].astype(np.float64)
+            kw["measures"][pos, rng.randrange(nd)] = rng.choice(OVERFLOW_VALUES)
         if kind == "sol_rank":
             kw["solution"] = kw["solution"].reshape(-1)
         elif kind == "sol_dim":
@@ -207,6 +217,13 @@ def gen_bad(rng, spec, nid):
         ex = spec["extras"]
         if kind.startswith("extra") and not ex and kind != "extra_unknown":
             kind = "extra_unknown"
+        if kind.endswith("_overflow") and dtype != np.float32:
+            kind = kind.replace("_overflow", "_nonfinite")
+        if kind == "obj_overflow":
+            kw["objective"] = rng.choice(OVERFLOW_VALUES)
+        elif kind == "mea_overflow":
+            kw["measures"] = np.asarray(kw["measures"], dtype=np.float64).copy()
+            kw["measures"][rng.randrange(nd)] = rng.choice(OVERFLOW_VALUES)
         if kind == "sol_shape":
             kw["solution"] = np.concatenate([kw["solution"], kw["solution"][:1]])
         elif kind == "sol_rank":
@@ -327,6 +344,14 @@ def run_case(driver, case):
                     desc["call"](twin)
                 except Exception as e:  # noqa
                     return ("nondeterministic acceptance of %s" % strip(desc), {"log": log}, False, {"kind": "harness"})
+                if desc["kind"].endswith("_overflow"):
+                    dd_ = main.data()
+                    nonfin = [f for f in ("objective", "measures", "threshold") if f in dd_ and not np.all(np.isfinite(np.asarray(dd_[f], dtype=np.float64)))]
+                    if nonfin:
+                        return ("%s accepted a %s that is not finite in the archive's dtype (%s) and now stores a non-finite %s" %
+                                (desc["entry"], desc["kind"].split("_")[0], strip(desc).get("kind"), "/".join(nonfin)),
+                                {"bad": strip(desc), "log": log, "stored": {f: np.asarray(dd_[f], dtype=np.float64).tolist() for f in nonfin}}, True,
+                                {"kind": "overflow-accepted", "entry": desc["entry"], "malformation": desc["kind"]})
                 log.append(["accepted", desc["entry"], desc["kind"]])
                 case.setdefault("accepted", []).append([desc["entry"], desc["kind"]])
                 continue
